@@ -226,6 +226,10 @@ class C(VPCheck):
         return it
 
     def make(self, e, api, pairs, post_t, noop, cid):
+        from ._workload import tame, HEAVY
+        if any(("'%s'" % h) in repr(e) for h in HEAVY if h != 'pow'):
+            # an astronomically large value substituted into the order of a gamma-family function makes it recurse once per unit (resource)
+            pairs = [(k, tame(v, True)) for k, v in pairs]
         plist = tuple((k, v) for k, v in pairs)
         stmts = [('let', 'e', e), ('let', 'r', (api, '$e', True) + plist), ('emit', '$r'),
                  ('emit', ('eq', '$r', (api, '$e', False) + plist)), ('emit', (api, '$e', False) + plist), ('emit', '$e')]
